@@ -703,6 +703,40 @@ pub fn run(tier: Tier, _replay: Option<Value>) -> ! {
             rep.fail(Failure { case: format!("{m} [$(( )) malformed/lexing]"), tags: vec!["malformed".into(), format!("text:{m}")], expected: want, observed: got, oracle: "bash".into() });
         }
     }
+    // ---- two expressions in one expansion: ${s:OFF:LEN} and ${a[@]:OFF:LEN} evaluate OFF, then LEN; every
+    //      pair over operands with and without side effects on x
+    {
+        let exprs = ["x", "x++", "++x", "x--", "y", "x=2", "x+=1", "1", "n", "x*2", "y-x", "0"];
+        let mut scripts = vec![];
+        let mut descs = vec![];
+        for e1 in exprs {
+            for e2 in exprs {
+                for (fname, form) in [("scalar", "${s:E1:E2}"), ("array", "${a[@]:E1:E2}"), ("positional", "${@:E1:E2}"), ("element-subscripts", "${a[E1]}${a[E2]}")] {
+                    let f = form.replace("E1", e1).replace("E2", e2);
+                    scripts.push(format!("s=abcdefghijkl; a=(a b c d e f g h i j k l); set -- p q r s t u v w; x=1; y=3; n=x\necho \"r=<{f}>\"; echo \"v=$x|$y\""));
+                    descs.push((format!("{f} with x=1 y=3 n=x"), fname));
+                }
+            }
+        }
+        let sb = common::run_plain_scripts(&scripts, 20_000);
+        let sr = bash::batch_eval("", &scripts, &[], 300);
+        for (i, (d, fname)) in descs.iter().enumerate() {
+            rep.evaluations += 1;
+            rep.nontrivial.insert(format!("subpair:{d}"));
+            let got = match &sb[i].crash {
+                Some(c) => format!("CRASH {c}"),
+                None => sb[i].out.clone(),
+            };
+            let want = sr[i].as_ref().map(|r| String::from_utf8_lossy(&r.stdout).into_owned()).unwrap_or_else(|| "<no record>".into());
+            // an expansion error abandons the command in both shells: only the shape is compared then
+            // ($0, reached by ${@:0:n}, is the script's name in one shell and the shell's in the other)
+            let norm = |o: &str| if o.contains("r=<") { o.replace("r=<./s.sh", "r=<ARG0").replace("r=<brush", "r=<ARG0").replace("r=<bash", "r=<ARG0") } else { "ERR\n".to_string() };
+            if norm(&got) != norm(&want) {
+                rep.fail(Failure { case: d.clone(), tags: vec!["two-expressions".into(), format!("form:{fname}")], expected: want, observed: got, oracle: "bash".into() });
+            }
+        }
+        rep.set("two_expression_cases", descs.len() as u64);
+    }
     // ---- expressions that differ only in white space but tokenise differently (`x++ +y` / `x+ ++y`,
     //      `1 2` / `12`, `x< =1` / `x<=1`): evaluated one after the other in ONE shell, in both orders, so
     //      that anything keyed on a normalised form of the text (a parse cache) is caught confusing them
